@@ -8,7 +8,7 @@
 EXTENDS ZnColl, Json, TLCExt
 Tr == ndJsonDeserialize("trace.ndjson")
 VARIABLES l, fb
-tvars == <<lst, dk, dv, rep, l, fb>>
+tvars == <<lst, dk, dv, rep, kept, l, fb>>
 TraceInit == CInit /\ l = 1 /\ fb = -1
 RepOK(e) ==
   /\ rep'.k = e.r.k
@@ -21,12 +21,13 @@ FindOK(e) ==
      ELSE /\ e.r.raw - (rep'.p - 1) \in {0, 1}
           /\ fb' = e.r.raw - (rep'.p - 1)
           /\ fb \in {-1, fb'}
-StateOK(e) == lst' = e.l /\ dk' = e.dk /\ dv' = e.dv /\ Len(dk') = e.dn
+\* e.kept = what the last handed-out NEW collection (the Go object itself, kept by the recorder) contains NOW
+StateOK(e) == lst' = e.l /\ dk' = e.dk /\ dv' = e.dv /\ Len(dk') = e.dn /\ kept' = e.kept
 TraceNext ==
   /\ l <= Len(Tr)
   /\ l' = l + 1
   /\ LET e == Tr[l] IN
-     \/ (e.o = "reset" /\ lst' = <<>> /\ dk' = <<>> /\ dv' = <<>> /\ rep' = [k |-> "init"] /\ fb' = fb)
+     \/ (e.o = "reset" /\ lst' = <<>> /\ dk' = <<>> /\ dv' = <<>> /\ rep' = [k |-> "init"] /\ kept' = <<>> /\ fb' = fb)
      \/ (e.o = "lfind" /\ LFind(e.v) /\ FindOK(e) /\ StateOK(e))
      \/ /\ e.o \notin {"reset", "lfind"}
         /\ fb' = fb
